@@ -15,7 +15,8 @@ def run(v, tier):
     for i in range(60 if quick else 400):
         text, lemmas = mmgen.database(random.Random(rng.random()), nlemmas=rng.choice([1, 2, 3]), zmode=rng.choice(['none', 'all', 'random', 'dup']),
                                       nconstr=rng.choice([1, 2, 3]), naxioms=rng.choice([2, 3, 4]), nrules=rng.choice([0, 1, 2]),
-                                      nested=rng.random() < 0.5, disjoint=rng.random() < 0.65)
+                                      nested=rng.random() < 0.5, disjoint=rng.random() < 0.65,
+                                      nsugar=rng.choice([0, 0, 1]), nquoted=rng.choice([0, 0, 1, 2]))
         reqs.append({'cmd': 'mmdb', 'text': text, 'lemmas': lemmas})
     # shipped benchmarks: print / parse round trip (slicing only for the small ones)
     for f in sorted(glob.glob(os.path.join(pi2v.REPO, 'generation/mm-benchmarks/*.mm'))):
